@@ -3,6 +3,7 @@
 #ifndef NV_DUMP_MORE_H
 #define NV_DUMP_MORE_H
 void dump_more_cond();
+void dump_more_fileio();
 void dump_more_memory();
 void dump_more_msp430asm();
 void dump_more_msp430dis();
@@ -19,6 +20,7 @@ void dump_more_m6502();
 static void dump_more()
 {
   dump_more_cond();
+  dump_more_fileio();
   dump_more_memory();
   dump_more_msp430asm();
   dump_more_msp430dis();
